@@ -30,7 +30,10 @@ SPECS.update({
         parts=[dict(name="hist", binary="rigv", pkg="rigv", test="TestC04", shards={"quick": 16, "thorough": 16}),
                dict(name="conc", binary="rigv", pkg="rigv", test="TestC04conc", race=True, shards={"quick": 8, "thorough": 16})]),
     "C05": hist("TestC05", _H % ("order, order-dl, order-seek-retention", "a keyed message was delivered on an ordered subscription after an earlier same-key message had been settled")),
-    "C06": hist("TestC06", _H % ("deadletter", "at least one delivery reached its max_delivery_attempts and had to be forwarded")),
+    "C06": dict(level="exploration", assumptions=HIST_ASSUME, min_relevant={"quick": 50, "thorough": 500},
+        rule=(_H % ("deadletter", "at least one delivery reached its max_delivery_attempts and had to be forwarded")) + "; plus a service part: the real dead-letter service (services/deadletter.go, own ticker / batch size / catch-up reschedule, virtual time, -race) next to planned pull rounds (per message: k of N deliveries, then ack / lease held / lease lapses); after the last round nobody pulls the source: every unacknowledged message with N deliveries must arrive exactly once, intact, on every matching dead-letter subscription within a bound computed from the service settings, nothing else may arrive (acknowledged, fewer than N deliveries, filtered out), held messages stay deliverable on the source with the next attempt number while the service keeps sweeping",
+        parts=[dict(name="hist", binary="rigv", pkg="rigv", test="TestC06", shards={"quick": 16, "thorough": 16}),
+               dict(name="svc", binary="rigv", pkg="rigv", test="TestC06svc", race=True, shards={"quick": 8, "thorough": 16})]),
     "C13": hist("TestC13", _H % ("seek", "a seek acknowledged or revived at least one delivery")),
     "C14": hist("TestC14", _H % ("retention", "a subscription expired, a retention deadline passed with a message outstanding, or a delivery delay was observed")),
 })
